@@ -528,11 +528,27 @@ def run_graph_batch(batch, timeout=120):
     hl = hout.splitlines()
     if rc != 0 or len(hl) != len(hin):
         return {"error": "harness rc=%d lines=%d/%d %s" % (rc, len(hl), len(hin), herr[-300:]), "hin": hin, "hout": hl}
-    din = [o if o.startswith("def ") else i for i, o in zip(hin, hl)]
+    # the driver reads the RESOLVED definitions; after every hash set / hash map it is also told the ORIGINAL arguments
+    # (`mk NAME set|map A..`), so that the model constructors mkSet / mkMap (member-by-member insertion with the key
+    # equality of the code, an equal member is replaced) are compared with the members the real object has
+    din, owner = [], []
+    for idx, (i, o) in enumerate(zip(hin, hl)):
+        din.append(o if o.startswith("def ") else i)
+        owner.append(idx)
+        t = i.split()
+        if o.startswith("def ") and len(t) >= 3 and t[0] == "def" and t[2] in ("set", "map") and "?" not in o.split():
+            din.append("mk %s %s %s" % (t[1], t[2], " ".join(t[3:])))
+            owner.append(-1 - idx)
     rc, dout, derr = C.run_bin([C.driver_path(DRIVER)], "\n".join(din) + "\n", timeout=max(300, timeout))
-    dl = dout.splitlines()
-    if rc != 0 or len(dl) != len(din):
-        return {"error": "driver rc=%d lines=%d/%d %s" % (rc, len(dl), len(din), derr[-300:]), "hin": hin, "hout": hl}
+    dl_all = dout.splitlines()
+    if rc != 0 or len(dl_all) != len(din):
+        return {"error": "driver rc=%d lines=%d/%d %s" % (rc, len(dl_all), len(din), derr[-300:]), "hin": hin, "hout": hl}
+    dl = [None] * len(hin)
+    for w, line in zip(owner, dl_all):
+        if w >= 0:
+            dl[w] = line
+        else:
+            dl[-1 - w] = dl[-1 - w] + " | " + line          # `def NAME | mk same=true`
     res = []
     for (s, e) in spans:
         res.append((hin[s:e], hl[s:e], dl[s:e]))
@@ -558,6 +574,11 @@ def judge_graph(ctx, label, g, hin, hl, dl, stats):
                 probs.append(("violation", "line `%s`: a hash map/set holds a value that is none of the inserted objects: `%s`" % (q, r)))
             if not m.startswith("def "):
                 probs.append(("model", "driver could not read `%s` -> `%s`" % (r, m)))
+            if "| mk " in m:
+                stats["constructor_ties"] += 1
+                if "same=true" not in m:
+                    probs.append(("model", "`%s`: the real object has the members `%s`, the model constructor mkSet/mkMap "
+                                           "(insertion with the key equality of the code) yields other ones" % (q, r)))
             continue
         d = kv(m)
         stats["evaluations"] += 1
@@ -579,6 +600,11 @@ def judge_graph(ctx, label, g, hin, hl, dl, stats):
                 if d.get("nonan") == "true":
                     probs.append(("violation", "`%s`: a real hash map reachable here holds two keys whose unfoldings are equal "
                                                "(it is not a finite map): %s" % (q, m)))
+                continue
+            if d.get("members") != "true":
+                if d.get("nonan") == "true":
+                    probs.append(("violation", "`%s`: a real hash set reachable here holds two members whose unfoldings are equal "
+                                               "(it is not a finite set): %s" % (q, m)))
                 continue
             if d.get("shared") == "true":
                 stats["eq_shared"] += 1
@@ -733,8 +759,14 @@ def gen_coll_seq(rng, reg, length):
                 ops.append("cm ref %d" % rng.randint(0, 5))
             elif r < 0.75:
                 ops.append("cm tryget %d" % rng.randint(0, 5))
-            elif r < 0.9:
+            elif r < 0.84:
                 ops.append("cm contains %d" % rng.randint(0, 5))
+            elif r < 0.89:
+                ops.append("cm keys")
+            elif r < 0.94:
+                ops.append("cm values")
+            elif r < 0.95:
+                ops.append("cm clear")
             else:
                 ops.append("cm len")
     elif reg == "cs":
@@ -748,8 +780,12 @@ def gen_coll_seq(rng, reg, length):
                 ops.append("cs insert %d" % rng.randint(0, 5))
             elif r < 0.7:
                 ops.append("cs contains %d" % rng.randint(0, 5))
-            elif r < 0.85:
-                ops.append("cs subset " + " ".join(str(x) for x in seq(None, 0, 5)))
+            elif r < 0.8:
+                ops.append("cs %s " % rng.choice(["subset", "subsetr"]) + " ".join(str(x) for x in seq(None, 0, 5)))
+            elif r < 0.88:
+                ops.append("cs list")
+            elif r < 0.9:
+                ops.append("cs clear")
             else:
                 ops.append("cs len")
     elif reg == "cl":
@@ -774,9 +810,16 @@ def gen_coll_seq(rng, reg, length):
                                        "cl cons2 %d %d" % (rng.randint(0, 9), rng.randint(0, 9))]))
             elif r < 0.8:
                 ops.append("cl append " + " ".join(str(x) for x in seq()))
-            elif r < 0.85:
+            elif r < 0.84:
                 ops.append("cl reverse")
-            elif r < 0.95:
+            elif r < 0.88:
+                ops.append("cl drop %d" % ival())
+            elif r < 0.91:
+                ops.append(rng.choice(["cl range %d %d" % (ival(-1, 6), ival(-1, 8)), "cl range1 %d" % ival(-1, 6)]))
+            elif r < 0.93:
+                b = seq()
+                ops.append("cl append3 %d " % len(b) + " ".join(str(x) for x in b + seq()))
+            elif r < 0.97:
                 ops.append("cl cons %d" % rng.randint(0, 9))
             else:
                 ops.append("cl len")
@@ -788,8 +831,13 @@ def gen_coll_seq(rng, reg, length):
                 ops.append("cv ref %d" % ival())
             elif r < 0.7:
                 ops.append("cv set %d %d" % (ival(), rng.randint(0, 99)))
-            elif r < 0.9:
+            elif r < 0.82:
                 ops.append("cv push %d" % rng.randint(0, 99))
+            elif r < 0.87:
+                ops.append("cv append " + " ".join(str(x) for x in seq()))
+            elif r < 0.92:
+                b = seq()
+                ops.append("cv append3 %d " % len(b) + " ".join(str(x) for x in b + seq()))
             else:
                 ops.append("cv len")
     elif reg == "cb":
@@ -802,8 +850,13 @@ def gen_coll_seq(rng, reg, length):
                 ops.append("cb set %d %d" % (ival(), rng.choice([0, 1, 255, 256, -1, 128, 300])))
             elif r < 0.8:
                 ops.append("cb new " + " ".join(str(x) for x in seq(None, 250, 257)))
-            elif r < 0.9:
+            elif r < 0.86:
                 ops.append("cb append " + " ".join(str(x) for x in seq(None, 0, 255)))
+            elif r < 0.9:
+                b = seq(None, 0, 255)
+                ops.append("cb append3 %d " % len(b) + " ".join(str(x) for x in b + seq(None, 0, 255)))
+            elif r < 0.95:
+                ops.append("cb push %d" % rng.choice([0, 7, 255, 256, -1]))
             else:
                 ops.append("cb len")
     elif reg == "ct":
@@ -815,8 +868,15 @@ def gen_coll_seq(rng, reg, length):
                 ops.append("ct ref %d" % ival())
             elif r < 0.6:
                 ops.append("ct sub %d %d" % (ival(-1, 7), ival(-1, 7)))
-            elif r < 0.85:
+            elif r < 0.7:
+                ops.append("ct sub1 %d" % ival(-1, 7))
+            elif r < 0.78:
+                ops.append(rng.choice(["ct tolist", "ct tolist %d" % ival(-1, 7), "ct tolist %d %d" % (ival(-1, 7), ival(-1, 7))]))
+            elif r < 0.88:
                 ops.append("ct append " + " ".join(str(rng.choice(alphabet)) for _ in range(rng.randint(0, 3))))
+            elif r < 0.92:
+                b = [rng.choice(alphabet) for _ in range(rng.randint(0, 2))]
+                ops.append("ct append3 %d " % len(b) + " ".join(str(x) for x in b + [rng.choice(alphabet) for _ in range(rng.randint(0, 2))]))
             else:
                 ops.append("ct len")
     return ops
@@ -876,32 +936,53 @@ def steel_of(op):
         return upd("(append (append cl (list %s)) (list %s))" % tuple(a))
     if reg == "cl" and base == "cons2":
         return upd("(cons %s (cons %s cl))" % tuple(a))
+    if base == "append3":
+        # n-ary append with the register in the middle and an empty collection among the arguments
+        n = int(a[0])
+        bef, aft = " ".join(a[1:1 + n]), " ".join(a[1 + n:])
+        if reg == "cl":
+            return upd("(append (list %s) cl (list) (list %s))" % (bef, aft))
+        if reg == "cv":
+            return upd("(vector-append (vector %s) cv (vector %s) (vector))" % (bef, aft))
+        if reg == "cb":
+            return upd("(bytes-append (bytes %s) cb (bytes) (bytes %s))" % (bef, aft))
+        if reg == "ct":
+            mk = lambda x: "(list->string (map integer->char (list %s)))" % x
+            return upd("(string-append %s ct \"\" %s)" % (mk(bef), mk(aft)))
     if reg == "cm":
         return {"new": upd("(hash %s)" % A), "insert": upd("(hash-insert cm %s)" % A), "remove": upd("(hash-remove cm %s)" % A),
                 "ref": ("(hash-ref cm %s)" % A, "res"), "tryget": ("(hash-try-get cm %s)" % A, "opt"),
-                "contains": ("(hash-contains? cm %s)" % A, "bool"), "len": ("(hash-length cm)", "num")}[o]
+                "contains": ("(hash-contains? cm %s)" % A, "bool"), "len": ("(hash-length cm)", "num"),
+                "keys": ("(hash-keys->list cm)", "bag"), "values": ("(hash-values->list cm)", "bag"),
+                "clear": upd("(hash-clear cm)")}[o]
     if reg == "cs":
         return {"new": upd("(hashset %s)" % A), "insert": upd("(hashset-insert cs %s)" % A),
                 "contains": ("(hashset-contains? cs %s)" % A, "bool"), "len": ("(hashset-length cs)", "num"),
-                "subset": ("(hashset-subset? cs (hashset %s))" % A, "bool")}[o]
+                "subset": ("(hashset-subset? cs (hashset %s))" % A, "bool"),
+                "subsetr": ("(hashset-subset? (hashset %s) cs)" % A, "bool"),
+                "list": ("(hashset->list cs)", "bag"), "clear": upd("(hashset-clear cs)")}[o]
     if reg == "cl":
         return {"new": upd("(list %s)" % A), "ref": ("(list-ref cl %s)" % A, "res"), "first": ("(first cl)", "res"),
                 "last": ("(last cl)", "res"), "rest": upd("(rest cl)"), "take": upd("(take cl %s)" % A),
                 "tail": upd("(list-tail cl %s)" % A), "append": upd("(append cl (list %s))" % A),
-                "reverse": upd("(reverse cl)"), "cons": upd("(cons %s cl)" % A), "len": ("(length cl)", "num")}[o]
+                "reverse": upd("(reverse cl)"), "cons": upd("(cons %s cl)" % A), "len": ("(length cl)", "num"),
+                "drop": upd("(drop cl %s)" % A), "range": upd("(range %s)" % A), "range1": upd("(range %s)" % A)}[o]
     if reg == "cv":
         return {"new": upd("(vector %s)" % A), "ref": ("(vector-ref cv %s)" % A, "res"),
                 "set": ("(begin (vector-set! cv %s) %s)" % (A, state), "state"),
-                "push": ("(begin (vector-push! cv %s) %s)" % (A, state), "state"), "len": ("(vector-length cv)", "num")}[o]
+                "push": ("(begin (vector-push! cv %s) %s)" % (A, state), "state"), "len": ("(vector-length cv)", "num"),
+                "append": upd("(vector-append cv (vector %s))" % A)}[o]
     if reg == "cb":
         return {"new": upd("(bytes %s)" % A), "ref": ("(bytes-ref cb %s)" % A, "res"),
                 "set": ("(begin (bytes-set! cb %s) %s)" % (A, state), "state"),
-                "append": upd("(bytes-append cb (bytes %s))" % A), "len": ("(bytes-length cb)", "num")}[o]
+                "append": upd("(bytes-append cb (bytes %s))" % A), "len": ("(bytes-length cb)", "num"),
+                "push": ("(begin (bytes-push! cb %s) %s)" % (A, state), "state")}[o]
     if reg == "ct":
         chars = "(list->string (map integer->char (list %s)))" % A
         return {"new": upd(chars), "ref": ("(char->integer (string-ref ct %s))" % A, "res"),
-                "sub": upd("(substring ct %s)" % A), "append": upd("(string-append ct %s)" % chars),
-                "len": ("(string-length ct)", "num")}[o]
+                "sub": upd("(substring ct %s)" % A), "sub1": upd("(substring ct %s)" % A),
+                "tolist": ("(map char->integer (string->list ct %s))" % A, "state"),
+                "append": upd("(string-append ct %s)" % chars), "len": ("(string-length ct)", "num")}[o]
     raise KeyError(op)
 
 
@@ -920,6 +1001,8 @@ def canon_real(reg, how, out):
         if reg == "cs":
             return " ".join(["set"] + [str(x) for x in sorted(nums)])
         return " ".join(["seq"] + [str(x) for x in nums])
+    if how == "bag":
+        return " ".join(["set"] + [str(x) for x in sorted(nums)])
     if how == "res":
         return "ok %d" % nums[0] if nums else "?" + v
     if how == "opt":
@@ -996,6 +1079,22 @@ def run_coll(ctx, rng, nseq, length, stats):
     seqs.insert(0, ["cl new", "cl appendl", "cl appendl 1 2", "cl append2 3 4", "cl cons2 0 0", "cl last", "cl first", "cl len", "cl appendl 9 9 9 9 9", "cl ref 5"])
     seqs.insert(0, ["cs new", "cs len", "cs contains 1", "cs subset", "cs subset 1", "cs new 1 1 2", "cs len", "cs insert 1",
                     "cs len", "cs insert 3", "cs len", "cs subset 1 2 3 4", "cs subset 1 2"])
+    # the operations that only the model P of the primitives distinguishes from the mathematical model: `drop` (a cdr loop),
+    # `range`, n-ary append with empty arguments, keys / values, `subset?` both ways, and the string primitives on text
+    # whose BYTE length exceeds its character count (`bounds` compares a character index with the byte length first)
+    seqs.insert(0, ["cl new 1 2 3", "cl drop 0", "cl drop 3", "cl new 1 2 3", "cl drop 4", "cl drop -1", "cl drop 1", "cl range 3 3",
+                    "cl range 5 2", "cl range -1 2", "cl range 2 -1", "cl range1 0", "cl range1 4", "cl range1 -2", "cl range 2 6",
+                    "cl new", "cl append3 0", "cl append3 2 1 2", "cl append3 0 5", "cl drop 0", "cl new", "cl drop 1"])
+    seqs.insert(0, ["cm new 1 10 2 20 3 10", "cm keys", "cm values", "cm new 1", "cm new 1 2 3", "cm keys", "cm clear", "cm keys", "cm len",
+                    "cm new 5 1 5 2", "cm values", "cm union 5 9 6 9", "cm values", "cm keys"])
+    seqs.insert(0, ["cs new 1 2 3", "cs list", "cs subsetr 1 2", "cs subsetr 1 4", "cs subsetr", "cs subset", "cs clear", "cs list",
+                    "cs subsetr", "cs subset 1", "cs subsetr 1"])
+    seqs.insert(0, ["ct new 233 233", "ct len", "ct ref 1", "ct ref 2", "ct ref 3", "ct ref 4", "ct sub 2 2", "ct new 233 233", "ct sub 3 3",
+                    "ct sub 4 4", "ct sub 2 3", "ct sub1 2", "ct new 233 233", "ct sub1 3", "ct sub1 4", "ct sub1 5", "ct sub1 -1",
+                    "ct tolist", "ct tolist 1", "ct tolist 1 2", "ct tolist 2 1", "ct tolist 3", "ct new 128512 97 128512", "ct sub1 1",
+                    "ct tolist 0 1", "ct append3 1 955 233", "ct sub 1 4", "ct new", "ct sub1 0", "ct tolist", "ct sub1 1"])
+    seqs.insert(0, ["cv new 1 2", "cv append 3 4", "cv append", "cv append3 1 0 9", "cv append3 0", "cv len", "cv ref 5",
+                    "cb new 1 2", "cb push 255", "cb push 256", "cb push -1", "cb len", "cb append3 1 9 8", "cb append3 0"])
     chunk = 50
     batches = [seqs[i:i + chunk] for i in range(0, len(seqs), chunk)]
     for bi, res in enumerate(C.pool_map(run_coll_batch, batches)):
@@ -1033,7 +1132,7 @@ def run_coll(ctx, rng, nseq, length, stats):
 def run(ctx):
     stats = {"evaluations": 0, "eq": 0, "eq_true": 0, "eq_shared": 0, "eq_legacy_would_fail": 0, "hq": 0, "hq_true": 0,
              "key": 0, "key_true": 0, "graphs": 0, "nodes": 0, "max_nodes": 0, "kinds": {}, "samples": [], "pending": [],
-             "coll_ops": 0, "coll_errors": 0, "coll_kinds": {}, "corpus_cases": 0}
+             "coll_ops": 0, "coll_errors": 0, "coll_kinds": {}, "corpus_cases": 0, "constructor_ties": 0}
     rng = random.Random(ctx.seed * 7919 + 11)
 
     # translate
